@@ -66,6 +66,9 @@ type obj struct {
 	generic bus.ObjectProxy
 	live    bool
 	subs    []chan string
+	// subscriptions to another signal of the same object (the generic
+	// traceObject signal) held through the same proxy and connection
+	sideSubs []chan []byte
 	// actor: what was given to Service.Add. An object which is gone may be added
 	// again (op "readd"): a second life under a new identifier, a second obj
 	// here; baseTerm is how often its termination hook had run before this life
@@ -93,6 +96,8 @@ func (s *slowActor) Activate(a bus.Activation) error {
 	}
 	return s.Actor.Activate(a)
 }
+
+const traceSig = "(IiIm(ll)<timeval,tv_sec,tv_usec>llII)<EventTrace,id,kind,slotId,arguments,timestamp,userUsTime,systemUsTime,callerContext,calleeContext>"
 
 func waitClosed(ch chan string, d time.Duration) bool {
 	deadline := time.After(d)
@@ -166,6 +171,18 @@ func checkCase(c Case) error {
 			}
 		}
 		o.subs = nil
+		for i, ch := range o.sideSubs {
+			deadline := time.After(bound)
+			for open := true; open; {
+				select {
+				case _, ok := <-ch:
+					open = ok
+				case <-deadline:
+					return vt.Violationf("C16:subscriber-not-told", "object %d removed by %s: the channel of subscriber %d of its other signal (traceObject), held through the same connection as a subscriber of pong, is still open after %v", o.id, how, i, bound)
+				}
+			}
+		}
+		o.sideSubs = nil
 		return nil
 	}
 	call := func(o *obj, viaRaw bool, step int) error {
@@ -427,6 +444,21 @@ func checkCase(c Case) error {
 				return vt.Violationf("C16:subscribe-error", "step %d: subscribe to live object %d: %v", i, o.id, err)
 			}
 			o.subs = append(o.subs, ch)
+			// every other time: one more subscription, to another signal of the
+			// same object, through the same proxy (each of them is told when the
+			// object goes)
+			if (op.Target+i)%2 == 0 && len(o.sideSubs) == 0 {
+				if sid, err := o.proxy.Proxy().MetaObject().SignalID("traceObject", traceSig); err == nil {
+					_, sch, err := o.proxy.Proxy().SubscribeID(sid)
+					if err != nil {
+						return vt.Violationf("C16:subscribe-error", "step %d: subscribe to traceObject of live object %d: %v", i, o.id, err)
+					}
+					o.sideSubs = append(o.sideSubs, sch)
+					vt.Label("two-signals-of-one-object-subscribed")
+				} else {
+					vt.Label("no-traceObject-signal-in-meta-object")
+				}
+			}
 		case "subrace":
 			if o == nil || !o.live {
 				continue
